@@ -105,6 +105,11 @@ def work(item):
     name, seedstr = item
     rng = random.Random(seedstr)
     prog, values, has_ad = mpe_program(rng)
+    if seedstr.startswith("c20c/"):
+        # family with certain facts: one or two probabilistic facts get probability exactly 1
+        fs = sorted(k for k in values if any(len(s_[1]) == 1 and s_[1][0][0] == k for s_ in prog if s_[0] == "ad"))
+        for k in rng.sample(fs, min(len(fs), rng.randint(1, 2))):
+            values[k] = Fraction(1)
     st = Stats()
     st["programs"] = 1
     text = symsem.substitute_params(gen.program_text(prog), values)
@@ -286,7 +291,8 @@ def main(tier, seed):
                        "reference vlib/refsem.py"]
     n = 150 if tier == "quick" else 4000
     items = [("mpe/%d/%d" % (seed, i), "c20/%s/%s" % (seed, i)) for i in range(n)]
-    run.bounds = {"programs": n, "max_choices": 8}
+    items += [("mpe-certain/%d/%d" % (seed, i), "c20c/%s/%s" % (seed, i)) for i in range(n // 2)]
+    run.bounds = {"programs": len(items), "max_choices": 8}
     for st in pmap(work, items, item_timeout=120):
         run.merge(st)
     return run.finish()
